@@ -150,7 +150,8 @@ def run_check(prop, tier, seed):
                 harness_errors.append(f"shard {i}: {res['error']}")
         else:
             logtxt = (tmp / f"log_{i}.txt").read_text(errors="replace")[-3000:]
-            if p.returncode < 0 or p.returncode in (134, 139):
+            crash_signals = (signal.SIGSEGV, signal.SIGABRT, signal.SIGBUS, signal.SIGFPE, signal.SIGILL)
+            if -p.returncode in crash_signals or p.returncode in (134, 139):
                 # the interpreter was terminated while running a case
                 try:
                     rec = json.loads(casef.read_text())
@@ -171,6 +172,9 @@ def run_check(prop, tier, seed):
                     )
                 else:
                     harness_errors.append(f"shard {i} died ({p.returncode}) before any case\n{logtxt}")
+            elif p.returncode < 0:
+                # killed from outside (SIGTERM/SIGKILL, OOM killer): says nothing about the property
+                killed += 1
             else:
                 harness_errors.append(f"shard {i} exited {p.returncode} without result\n{logtxt}")
 
